@@ -38,6 +38,8 @@ def gen(rng, tier, idx):
                         "maxdepth": rk.choice([1, 2, 3, 6, 12, 40])})
     r = rng.derive("faults")
     n = r.choice([10, 40, 120, 300])
+    if idx % 300 == 211:
+        n = r.choice([3000, 6000])      # marathon: thousands of enter/leave pairs on the same few threads
     mode = r.weighted([("legal", 62), ("fault", 26), ("open", 9), ("reenter", 3)])
     fault_at = r.below(n) if mode in ("fault", "reenter") else None
     maxdepth = 0
